@@ -2,13 +2,14 @@
    list, prod, sumbool, sumor -> the OCaml types); numbers stay the extracted inductives.
    No Extract Constant / Extract Inductive of our own. *)
 From Coq Require Import Extraction ExtrOcamlBasic.
-From KP Require Import Bytes Utf8 Nav Tree History Merge Version ReadScript WriteScript.
+From KP Require Import Bytes Utf8 Nav Tree History Merge Version ReadScript WriteScript Base32 Otp OtpInst.
 Extraction Language OCaml.
 Set Extraction KeepSingleton.
-Extraction "model.ml"
+Separate Extraction
   BinInt.Z.add BinNat.N.add Nat.add
   Nav.iter Nav.get Nav.get_mut Nav.entries Nav.groups Nav.uuid_of
   History.update_history History.apply_hop History.run_hops
   Merge.merge
   ReadScript.read_to_end ReadScript.rte_fuel ReadScript.get_version_model Version.version_parse
+  Base32.b32_decode Base32.b32_encode Otp.otp_parse Otp.value_at OtpInst.hmac_alg BinNat.N.mul BinNat.N.div BinNat.N.modulo
   WriteScript.save_to_sink WriteScript.fresh_sink WriteScript.save_raw.
